@@ -24,9 +24,69 @@ EXPLANATION = (
 NONDET = {"random", "time", "datetime", "uuid", "secrets", "os", "threading"}
 
 
+def recursion_shape(check: Check, repo, esc) -> None:  # noqa: ANN001
+    """RECURSION-SHAPE: the property grants parse() a recursion budget for the *nesting* of the input - recursion that
+    descends in the grammar: an expression calls a child expression, a reference calls the rule it names.  A cycle of
+    the call graph that reaches parse() and does not pass through such a descending call (a method calling itself on
+    the same receiver, helpers calling each other) recurses once per *item* of the input - per comment, per stack
+    entry, per repetition - and overflows the interpreter stack on a long, flat input.
+
+    Descending calls: calls of a method of an Expression class on a receiver other than `self` / `super()` (a child, a
+    rule looked up by name, a trivia rule held by the state).  They are removed from the reachable call graph; any
+    cycle that is left is reported."""
+    import re as _re
+
+    from ..escape import _on_cycle
+
+    entry = "src/pest/parser.py::Parser.parse"
+    if entry not in esc.funcs:
+        raise AnalysisError(f"anchor vanished: entry point {entry}")
+    reach = {entry}
+    work = [entry]
+    graph: dict[str, list[str]] = {}
+    n_desc = 0
+    while work:
+        k = work.pop()
+        f = esc.funcs[k]
+        outs: list[str] = []
+        for keys, _handlers, text in f.calls:
+            dm = _re.match(r"\s*__\w+__\((.*)\)\s*$", text, _re.S)  # str(x) / len(x) / x + y are recorded as __str__(x) ...
+            if dm:
+                same_node = dm.group(1).strip() == "self"
+            else:
+                same_node = bool(_re.match(r"\s*(self|super\(\))\.\w+\(", text)) or not _re.match(r"\s*[\w.\[\]()'\"]+\.\w+\(", text)
+            for c in keys:
+                if c not in esc.funcs:
+                    continue
+                ccls = esc.funcs[c].cls
+                descending = ccls is not None and repo.is_subclass(ccls, "Expression") and not same_node
+                if descending:
+                    n_desc += 1
+                else:
+                    outs.append(c)
+                if c not in reach:
+                    reach.add(c)
+                    work.append(c)
+        for c in esc.address_taken(f):
+            if c in esc.funcs:
+                outs.append(c)
+                if c not in reach:
+                    reach.add(c)
+                    work.append(c)
+        graph[k] = outs
+    cyc = _on_cycle({k: [c for c in v if c in reach] for k, v in graph.items()})
+    check.count("recursion_shape_functions", len(reach))
+    check.count("recursion_descending_calls", n_desc)
+    for k in sorted(cyc):
+        sig = "recursion that does not descend in the grammar: its depth grows with the length of the input, not with its nesting"
+        mates = sorted(c for c in graph.get(k, []) if c in cyc)
+        check.oblige("RECURSION-SHAPE", k, sig, False, finding=Finding("RECURSION-SHAPE", k, sig, f"{k.split('::')[-1]} is on a call-graph cycle reachable from Parser.parse that passes through no call of a child expression or referenced rule (it calls {', '.join(m.split('::')[-1] for m in mates)}): a long flat input (many comments, many stack entries, many iterations) raises RecursionError where the property grants a budget for nesting only", {"cycle": mates}))
+    check.oblige("RECURSION-SHAPE", entry, f"every call-graph cycle reachable from parse() passes through a descending call ({n_desc} descending call edges removed, {len(reach)} functions)", not cyc) if not cyc else None
+
+
 def run(tier: str) -> Check:
     check = Check("C07", tier, EXPLANATION)
-    check.rules = ["ESCAPE", "ESCAPE-RUNTIME", "RAISE", "R5", "RESULT", "NONDET", "PATTERN"]
+    check.rules = ["ESCAPE", "ESCAPE-RUNTIME", "RECURSION-SHAPE", "RAISE", "R5", "RESULT", "NONDET", "PATTERN"]
     repo, rep = fill(check, tier, floors={"skeleton_paths": 120, "parse_paths": 120})
     esc = escape_engine(repo)
     check.assumptions = [
@@ -36,6 +96,7 @@ def run(tier: str) -> Check:
     ]
     total, _ = run_entry(check, repo, "src/pest/parser.py::Parser.parse", {"PestParsingError"}, "ESCAPE")
     check.count("escaping_sites_examined", total)
+    recursion_shape(check, repo, esc)
     # runtime helpers named by the templates
     helpers: set[str] = set()
     for _label, sk in rep.skeleton_sources:
@@ -76,6 +137,7 @@ def run(tier: str) -> Check:
         check.count("modules_scanned_nondet")
     check.oblige("NONDET", "src/pest", "no clock, random, environment or identity-hash source in the library", True)
     check.floor("reachable_functions", 40)  # a vacuity guard, not a census
+    check.floor("recursion_descending_calls", 10)
     check.floor("runtime_helper_entries", 12)
     # patterns built at load time are compiled lazily, inside parse(): a malformed one raises regex.error there
     from ..charclass import GRID, GRID_DASH, check_char_class
